@@ -139,10 +139,7 @@ theorem kstep_opCcs (s : St) (ver : Nat) : KStep s (opCcs s ver).1 := by
   obtain ⟨s2, ev1⟩ := r2
   simp only at h2 ⊢
   split
-  · have h3 := kstep_addSubConn s2
-    generalize addSubConn s2 = r3 at h3 ⊢
-    obtain ⟨s3, ok, ev2⟩ := r3
-    exact ((h0.trans h1).trans h2).trans h3
+  · exact ((h0.trans h1).trans h2).trans (kstep_enforce s2 _ _)
   · exact (h0.trans h1).trans h2
 
 /-! ### Pick -/
@@ -793,10 +790,7 @@ theorem ext2_opCcs {s : St} (t : Tables s) (ver : Nat) : Ext2 s (opCcs s ver).1 
   obtain ⟨s2, ev1⟩ := r2
   simp only at h2 t2 ⊢
   split
-  · have h3 := ext2_addSubConn t2
-    generalize addSubConn s2 = r3 at h3 ⊢
-    obtain ⟨s3, ok, ev2⟩ := r3
-    exact ((h0.trans h1).trans h2).trans h3
+  · exact ((h0.trans h1).trans h2).trans (ext2_enforce t2 _ _)
   · exact (h0.trans h1).trans h2
 
 
